@@ -214,3 +214,104 @@ Proof. exact @ww_connection2. Qed.
 Theorem C02_wire_example_run_form : let g := wfold wg0 (i_wlog ww_cfg (x_init ww_cfg) ww_hist) in conn_bytes ww_hist (snd (i_run ww_cfg (x_init ww_cfg) ww_hist)) [] = ww_connect2 ++ ww_pub1_dup ++ ww_pub2_id3 /\ map (i_full ww_cfg) (w_done g) = [ww_connect2; ww_pub1_dup; ww_pub2_id3] /\ w_cur g = None /\ w_part g = [].
 Proof. exact @ww_run_form. Qed.
 
+(* ---------- validity of everything the engine puts on the wire (ValidateProofs/Bridge*.v, EngineProofs/WireValid*.v): the premise "every seated (packet, resolution) is ValidC2S.valid" of C02_instance_wire_decodes DISCHARGED. Packet level: a PUBLISH / SUBSCRIBE / UNSUBSCRIBE / DISCONNECT (both versions) that is a value of the Rust packet type (typed), whose erased form (packet id 0, DUP 0) passed the submission-time validator validate_packet_outbound, that passed the send-time validator validate_packet_outbound_internal with its resolution, is shorter than 4 GiB, carries an engine-allocated packet id (<= 65535, DUP only on QoS >= 1: engine_ok) and a resolver's resolution (res_valid) is valid for the wire specification (C02_bridge_user and the per-kind C02_bridge_publish ...); every premise is necessary (witnesses, by computation): in particular the send-time validator alone accepts an empty topic without alias, U+0000 in the topic, oversized correlation data, a subscription identifier in a PUBLISH / identifier 0 in a SUBSCRIBE, an empty SUBSCRIBE / UNSUBSCRIBE (C02_send_time_check_alone_insufficient). The packets the engine builds itself: default_ack pid is valid iff pid is 1..65535, PINGREQ always (C02_engine_acks_valid, C02_pingreq_valid); the CONNECT of a configuration is valid IFF the configuration satisfies the explicit predicate connect_checked (C02_connect_valid_iff; connect options are validated nowhere in the library: D17 / D25 / D29; one witness configuration per clause). RUN LEVEL (C02_run_encodes_good for the abstract engine, C02_instance_... for the concrete one): invariant GI - every operation holds a submitted-and-validated user packet (up to packet id / DUP), a valid CONNECT, a default ack with a real packet id or PINGREQ; PUBREL slots hold default acks; the packet-id cursor, the negotiated client id / topic alias maximum, the decoder's buffered octets and the outbound resolver are within range - is preserved by every event (connection close uses the engine's well-formedness invariant: DUP is set on QoS >= 1 publishes only), and every encoder is constructed for the seated packet of a good operation right after the send-time validator accepted it; with the decoder facts (16-bit fields of decoded packets are below 65536 when the input are octets: C02_decoded_packets_in_range) and the resolver bound (C02_resolver_bound). Hypotheses of the final theorem C02_instance_wire_wellformed: ok_cfg, ok_event, sub_ev (submitted packets passed the submission-time validator, are typed and shorter than 4 GiB; incoming data are octets) and connect_opts_ok; conclusion: every seated (packet, resolution) is valid and the completed part of the connection's byte stream decodes, by the specification decoder, to exactly the canonical seated packets. Necessity at run level by computation: an unvalidated empty-topic PUBLISH is put on the wire and rejected by the specification decoder; 3.1.1 connect options with a password and no user name produce an invalid CONNECT ---------- *)
+From GM Require Import Validate.Rules Validate.Spec ValidateProofs.SizeP ValidateProofs.RulesP ValidateProofs.BridgeDefs ValidateProofs.BridgePackets ValidateProofs.BridgeConnect ValidateProofs.BridgeWitness ValidateProofs.BridgeConnectWitness Codec.Framing Alias.Outbound EngineProofs.WFStep EngineProofs.WFInstance EngineProofs.WireValidDefs EngineProofs.WireValidFrame EngineProofs.WireValidSeat EngineProofs.WireValidRun EngineProofs.WireValidDec EngineProofs.WireValidComps EngineProofs.WireValidInstance EngineProofs.WireValidWitness.
+Theorem C02_bridge_user : forall (v : version) (st : settings) (co : connect_opts) (r : resolution) (p : packet), user_kind p = true -> typed p = true -> validate_outbound (erase p) = Ok tt -> validate_outbound_internal (Some st) co r p = Ok tt -> small p (res_of p r) -> engine_ok p = true -> res_valid r = true -> (v = V311 -> r_skip_topic r = false) -> valid v r p = true.
+Proof. exact @bridge_user. Qed.
+
+Theorem C02_bridge_publish : forall (v : version) (st : settings) (co : connect_opts) (r : resolution) (p : publish), typed_publish p = true -> validate_outbound (erase (Publish p)) = Ok tt -> validate_outbound_internal (Some st) co r (Publish p) = Ok tt -> small (Publish p) r -> engine_ok (Publish p) = true -> res_valid r = true -> (v = V311 -> r_skip_topic r = false) -> valid v r (Publish p) = true.
+Proof. exact @bridge_publish. Qed.
+
+Theorem C02_bridge_subscribe : forall (v : version) (st : settings) (co : connect_opts) (r : resolution) (s : subscribe), typed_subscribe s = true -> validate_outbound (erase (Subscribe s)) = Ok tt -> validate_outbound_internal (Some st) co r (Subscribe s) = Ok tt -> small (Subscribe s) no_resolution -> engine_ok (Subscribe s) = true -> valid v r (Subscribe s) = true.
+Proof. exact @bridge_subscribe. Qed.
+
+Theorem C02_bridge_unsubscribe : forall (v : version) (st : settings) (co : connect_opts) (r : resolution) (u : unsubscribe), typed_unsubscribe u = true -> validate_outbound (erase (Unsubscribe u)) = Ok tt -> validate_outbound_internal (Some st) co r (Unsubscribe u) = Ok tt -> small (Unsubscribe u) no_resolution -> engine_ok (Unsubscribe u) = true -> valid v r (Unsubscribe u) = true.
+Proof. exact @bridge_unsubscribe. Qed.
+
+Theorem C02_bridge_disconnect : forall (v : version) (st : settings) (co : connect_opts) (r : resolution) (d : disconnect), typed_disconnect d = true -> validate_outbound (Disconnect d) = Ok tt -> validate_outbound_internal (Some st) co r (Disconnect d) = Ok tt -> small (Disconnect d) no_resolution -> valid v r (Disconnect d) = true.
+Proof. exact @bridge_disconnect. Qed.
+
+Theorem C02_bridge_premises_satisfiable : forallb (fun x : resolution * packet => bw_S (snd x) && bw_D (fst x) (snd x) && bw_rest (fst x) (snd x) && valid V5 (fst x) (snd x)) [(no_resolution, Publish (bw_pub 0 [116] 0 false)); (bw_alias, Publish (bw_pub 7 [116] 1 true)); (no_resolution, Subscribe (bw_sub 8 [bw_filter [97; 47; 35]] (Some 5))); (no_resolution, Unsubscribe (bw_unsub 9 [[97; 47; 43]])); (no_resolution, Disconnect (bw_disc (Some [98; 121; 101])))] = true.
+Proof. exact @bridge_premises_satisfiable. Qed.
+
+Theorem C02_send_time_check_alone_insufficient : forallb not_wire_valid [(no_resolution, Publish (bw_pub 0 [] 0 false)); (no_resolution, Publish (bw_pub 0 [116; 0] 0 false)); (no_resolution, Publish {| pub_pid := 0; pub_topic := [116]; pub_qos := 0; pub_dup := false; pub_retain := false; pub_payload := None; pub_pfi := None; pub_mei := None; pub_alias := None; pub_response_topic := None; pub_correlation := Some (repeat 1 (N.to_nat 65536)); pub_subids := None; pub_content_type := None; pub_up := None |}); (no_resolution, Publish {| pub_pid := 0; pub_topic := [116]; pub_qos := 0; pub_dup := false; pub_retain := false; pub_payload := None; pub_pfi := None; pub_mei := None; pub_alias := None; pub_response_topic := None; pub_correlation := None; pub_subids := Some [1]; pub_content_type := None; pub_up := None |}); (no_resolution, Subscribe (bw_sub 8 [] None)); (no_resolution, Subscribe (bw_sub 8 [bw_filter [97]] (Some 0))); (no_resolution, Unsubscribe (bw_unsub 9 [])); (no_resolution, Disconnect (bw_disc (Some [0])))] = true.
+Proof. exact @send_time_check_alone_insufficient. Qed.
+
+Theorem C02_submission_check_alone_insufficient : let x := (no_resolution, Publish (bw_pub 0 [116] 1 false)) in bw_S (snd x) && negb (bw_D (fst x) (snd x)) && bw_rest (fst x) (snd x) && negb (valid V5 (fst x) (snd x)) = true.
+Proof. exact @submission_check_alone_insufficient. Qed.
+
+Theorem C02_engine_facts_necessary : forallb (fun x : resolution * packet => bw_S (snd x) && bw_D (fst x) (snd x) && negb (engine_ok (snd x)) && negb (valid V5 (fst x) (snd x))) [(no_resolution, Publish (bw_pub 0 [116] 0 true)); (no_resolution, Publish (bw_pub 65536 [116] 1 false)); (no_resolution, Subscribe (bw_sub 65536 [bw_filter [97]] None)); (no_resolution, Unsubscribe (bw_unsub 65536 [[97]]))] = true.
+Proof. exact @engine_facts_necessary. Qed.
+
+Theorem C02_resolver_facts_necessary : forallb (fun r : resolution => bw_S (Publish (bw_pub 0 [116] 0 false)) && bw_D r (Publish (bw_pub 0 [116] 0 false)) && negb (res_valid r) && negb (valid V5 r (Publish (bw_pub 0 [116] 0 false)))) [{| r_skip_topic := true; r_alias := None |}; {| r_skip_topic := false; r_alias := Some 0 |}; {| r_skip_topic := false; r_alias := Some 65536 |}] = true.
+Proof. exact @resolver_facts_necessary. Qed.
+
+Theorem C02_type_invariants_necessary : forallb (fun p : packet => bw_S p && bw_D no_resolution p && negb (typed p) && negb (valid V5 no_resolution p)) [Publish (bw_pub 5 [116] 3 false); Publish (bw_pub 0 [255] 0 false); Subscribe (bw_sub 8 [{| sub_filter := [97]; sub_qos := 1; sub_no_local := false; sub_rap := false; sub_rh := 3 |}] None); Disconnect {| d_rc := 1; d_sei := None; d_reason := None; d_up := None; d_server_ref := None |}] = true.
+Proof. exact @type_invariants_necessary. Qed.
+
+Theorem C02_engine_acks_valid : forall (v : version) (r : resolution) (pid : N), valid v r (Puback (default_ack pid)) = pid_ok pid /\ valid v r (Pubrec (default_ack pid)) = pid_ok pid /\ valid v r (Pubrel (default_ack pid)) = pid_ok pid /\ valid v r (Pubcomp (default_ack pid)) = pid_ok pid.
+Proof. exact @engine_acks_valid. Qed.
+
+Theorem C02_pingreq_valid : forall (v : version) (r : resolution), valid v r Pingreq = true.
+Proof. exact @pingreq_valid. Qed.
+
+Theorem C02_connect_valid_iff : forall (v : version) (co : connect_opts) (cb : bool) (cid : option bytes), connect_typed co cid = true -> valid_connect v (connect_of co cb cid) = connect_checked v co cb cid.
+Proof. exact @connect_valid_iff. Qed.
+
+Theorem C02_connect_packet_valid_iff : forall (v : version) (r : resolution) (co : connect_opts) (cb : bool) (cid : option bytes), connect_typed co cid = true -> valid v r (Connect (connect_of co cb cid)) = true <-> connect_checked v co cb cid = true.
+Proof. exact @connect_packet_valid_iff. Qed.
+
+Theorem C02_connect_checked_satisfiable : bc_typed bc_ok && bc_checked V5 bc_ok && bc_checked V311 bc_ok && bc_valid V5 bc_ok && bc_valid V311 bc_ok = true.
+Proof. exact @connect_checked_satisfiable. Qed.
+
+Theorem C02_connect_clauses_necessary_both_versions : forallb (fun co : connect_opts => bc_typed co && negb (bc_checked V5 co) && negb (bc_checked V311 co) && negb (bc_valid V5 co) && negb (bc_valid V311 co)) [bc_co 0 (Some nul) None None None None None None; bc_co 0 (Some long) None None None None None None; bc_co 0 (Some [99]) (Some nul) None None None None None; bc_co 0 (Some [99]) (Some long) None None None None None; bc_co 0 (Some [99]) (Some [117]) (Some long) None None None None; bc_co 0 (Some [99]) None None None None (Some (bc_will nul None None None)) None; bc_co 0 (Some [99]) None None None None (Some (bc_will long None None None)) None; bc_co 0 (Some [99]) None None None None (Some (bc_will [119] (Some long) None None)) None] = true.
+Proof. exact @connect_clauses_necessary_both_versions. Qed.
+
+Theorem C02_connect_clauses_necessary_v5 : forallb (fun co : connect_opts => bc_typed co && negb (bc_checked V5 co) && negb (bc_valid V5 co) && bc_valid V311 co) [bc_co 0 (Some [99]) None None (Some 0) None None None; bc_co 0 (Some [99]) None None None (Some 0) None None; bc_co 0 (Some [99]) None None None None None (up1 [97] nul); bc_co 0 (Some [99]) None None None None None (up1 long [98]); bc_co 0 (Some [99]) None None None None (Some (bc_will [119] None (Some nul) None)) None; bc_co 0 (Some [99]) None None None None (Some (bc_will [119] None None (up1 nul [98]))) None] = true.
+Proof. exact @connect_clauses_necessary_v5. Qed.
+
+Theorem C02_connect_clauses_necessary_v311 : forallb (fun co : connect_opts => bc_typed co && negb (bc_checked V311 co) && negb (bc_valid V311 co) && bc_valid V5 co) [bc_co 0 (Some [99]) None (Some [112]) None None None None; bc_co 1 None None None None None None None; bc_co 1 (Some []) None None None None None None; bc_co 0 None None None None None None None] = true.
+Proof. exact @connect_clauses_necessary_v311. Qed.
+
+Theorem C02_create_connect_is_connect_of : forall (enc dec ores ires : Type) (cfg : config) (s : state enc dec ores ires), create_connect enc dec ores ires cfg s = Connect (connect_of (cf_connect cfg) (s_connected_before s) match co_client_id (cf_connect cfg) with | Some b => Some b | None => let? st := s_settings s in Some (st_client_id st) end).
+Proof. exact @create_connect_eq. Qed.
+
+Theorem C02_seated_packet_valid : forall (v : version) (sto : option settings) (co : connect_opts) (r : resolution) (p : packet), gseat v p -> validate_outbound_internal sto co r p = Ok tt -> res_le (Bv v) r -> valid v r p = true.
+Proof. exact @seat_valid. Qed.
+
+Theorem C02_decoded_packets_in_range : forall (v : version) (m : N) (d : decoder) (b : bytes), dgood d -> bytes_ok b = true -> dgood (fst (fst (decode_bytes v m d b))) /\ Forall (in_ok v) (snd (fst (decode_bytes v m d b))).
+Proof. exact @decode_bytes_good. Qed.
+
+Theorem C02_resolver_bound : forall (b : N) (o : ores) (a : option N) (t : bytes) (o' : ores) (r : resolution), b <= 65535 -> og b o -> ores_resolve o a t = Ok (o', r) -> og b o' /\ res_le b r.
+Proof. exact @og_resolve. Qed.
+
+Theorem C02_run_encodes_good : forall (enc : Type) (enc_reset : version -> packet -> resolution -> outcome enc) (enc_call : enc -> N -> N -> outcome (bytes * enc)) (enc_done : enc -> bool) (dec : Type) (dec_init : dec) (dec_feed : version -> N -> dec -> bytes -> dec * list packet * outcome unit) (ores : Type) (ores_reset : ores -> N -> ores) (ores_resolve : ores -> option N -> bytes -> outcome (ores * resolution)) (ires : Type) (ires_reset : ires -> ires) (ires_resolve : ires -> option N -> bytes -> outcome (ires * bytes)) (v_out : option settings -> connect_opts -> resolution -> packet -> outcome unit) (v_in : option settings -> packet -> outcome unit) (cfg : config) (HC : comps_ok enc enc_reset enc_call dec dec_init dec_feed ores ores_reset ores_resolve ires ires_reset ires_resolve v_out v_in), ok_cfg cfg -> forall (HW : wv_comps dec ores dec_init dec_feed ores_reset ores_resolve v_in (cf_version cfg) (cf_connect cfg)) (h : list event) (s : state enc dec ores ires), WFX enc enc_reset enc_call dec dec_init dec_feed ores ores_reset ores_resolve ires ires_reset ires_resolve v_out v_in cfg HC s -> GI enc dec dec_init dec_feed ores ores_reset ores_resolve ires v_in cfg HW s -> Forall ok_event h -> Forall sub_ev h -> Forall (pr_good v_out cfg) (encodes (run_olog enc enc_reset enc_call enc_done dec dec_init dec_feed ores ores_reset ores_resolve ires ires_reset ires_resolve v_out v_in cfg s h)).
+Proof. exact @run_encodes_good. Qed.
+
+Theorem C02_connect_opts_ok_configured : forall (v : version) (co : connect_opts) (i : bytes), co_client_id co = Some i -> connect_typed co (Some i) = true -> connect_checked v co false (Some i) = true -> connect_checked v co true (Some i) = true -> connect_opts_ok v co.
+Proof. exact @connect_opts_ok_configured. Qed.
+
+Theorem C02_connect_opts_ok_necessary : forall (v : version) (co : connect_opts) (cb : bool) (cid : option bytes) (r : resolution), cid_for co cid -> connect_typed co cid = true -> valid v r (Connect (connect_of co cb cid)) = false -> ~ connect_opts_ok v co.
+Proof. exact @connect_opts_ok_necessary. Qed.
+
+Theorem C02_instance_reach_good : forall cfg : config, ok_cfg cfg -> forall (k : resolver_kind) (Hco : connect_opts_ok (cf_version cfg) (cf_connect cfg)) (h : list event), Forall ok_event h -> Forall sub_ev h -> WFX enc impl_steps encode_call decoder decoder_init decode_bytes ores ores_reset ores_resolve Inbound.ires Inbound.ires_reset Inbound.ires_resolve validate_outbound_internal validate_inbound_internal cfg instance_comps_ok (fst (i_run cfg (i_init cfg k) h)) /\ GI enc decoder decoder_init decode_bytes ores ores_reset ores_resolve Inbound.ires validate_inbound_internal cfg (instance_wv (cf_version cfg) (cf_connect cfg) (connect_opts_cfg (cf_version cfg) (cf_connect cfg) Hco)) (fst (i_run cfg (i_init cfg k) h)).
+Proof. exact @instance_reach_good. Qed.
+
+Theorem C02_instance_encodes_valid : forall cfg : config, ok_cfg cfg -> forall k : resolver_kind, connect_opts_ok (cf_version cfg) (cf_connect cfg) -> forall h : list event, Forall ok_event h -> Forall sub_ev h -> Forall (pr_valid (cf_version cfg)) (encodes (i_olog cfg (i_init cfg k) h)).
+Proof. exact @instance_encodes_valid. Qed.
+
+Theorem C02_instance_wire_wellformed : forall cfg : config, ok_cfg cfg -> forall k : resolver_kind, connect_opts_ok (cf_version cfg) (cf_connect cfg) -> forall (h1 : list event) (now dl : N) (h2 : list event), Forall ok_event (h1 ++ EvOpen now dl :: h2) -> Forall sub_ev (h1 ++ EvOpen now dl :: h2) -> Forall not_open h2 -> let s1 := fst (i_run cfg (i_init cfg k) (h1 ++ [EvOpen now dl])) in let L := i_olog cfg s1 h2 in Forall (pr_valid (cf_version cfg)) (encodes L) /\ (exists frames part : list N, concat (map o_bytes (snd (i_run cfg s1 h2))) = frames ++ part /\ spec_decode_all (length (fst (packets_of L))) (cf_version cfg) frames = Some (map (pr_canon (cf_version cfg)) (fst (packets_of L))) /\ match snd (packets_of L) with | Some x => exists (bs : bytes) (rest : list N), impl_encode_all (cf_version cfg) (fst x) (snd x) = Ok bs /\ bs = part ++ rest /\ spec_decode (cf_version cfg) bs = Some (pr_canon (cf_version cfg) x, []) | None => part = [] end).
+Proof. exact @instance_wire_wellformed. Qed.
+
+Theorem C02_wire_wellformed_example : Forall (pr_valid V5) (encodes (i_olog ww_cfg ww_s2 ww_conn2)) /\ (exists frames part : list N, concat (map o_bytes (snd (i_run ww_cfg ww_s2 ww_conn2))) = frames ++ part /\ spec_decode_all (length (fst (packets_of (i_olog ww_cfg ww_s2 ww_conn2)))) V5 frames = Some (map (pr_canon V5) (fst (packets_of (i_olog ww_cfg ww_s2 ww_conn2)))) /\ match snd (packets_of (i_olog ww_cfg ww_s2 ww_conn2)) with | Some x => exists (bs : bytes) (rest : list N), impl_encode_all V5 (fst x) (snd x) = Ok bs /\ bs = part ++ rest /\ spec_decode V5 bs = Some (pr_canon V5 x, []) | None => part = [] end).
+Proof. exact @ww_wellformed. Qed.
+
+Theorem C02_unvalidated_submission_reaches_the_wire : is_ok (validate_outbound wv_bad_pub) = false /\ map (fun x : packet * resolution => valid V5 (snd x) (fst x)) (encodes (i_olog ww_cfg ww_s1 wv_bad_hist)) = [true; false] /\ last (map o_bytes (snd (i_run ww_cfg ww_s1 wv_bad_hist))) [] = [48; 4; 0; 0; 0; 1] /\ spec_decode V5 [48; 4; 0; 0; 0; 1] = None.
+Proof. exact @unvalidated_submission_reaches_the_wire. Qed.
+
+Theorem C02_unchecked_connect_options_reach_the_wire : let s1 := fst (i_run wv_bad_cfg (x_init wv_bad_cfg) [EvOpen 0 1000]) in map (fun x : packet * resolution => valid V311 (snd x) (fst x)) (encodes (i_olog wv_bad_cfg s1 [EvService 0 4096 0])) = [false] /\ spec_decode V311 (concat (map o_bytes (snd (i_run wv_bad_cfg s1 [EvService 0 4096 0])))) = None /\ connect_typed wv_bad_connect (Some [97; 97]) = true /\ connect_checked V311 wv_bad_connect false (Some [97; 97]) = false.
+Proof. exact @unchecked_connect_options_reach_the_wire. Qed.
+
+Theorem C02_bad_connect_options_excluded : ~ connect_opts_ok V311 wv_bad_connect.
+Proof. exact @bad_connect_options_excluded. Qed.
+
